@@ -158,6 +158,44 @@ slice / time axis of 5-D k-space alone whatever the form it was written in -/
 def cropShapeSpec (ndim : Int) (crop : List Int) (slices : Int) : List Int :=
   if ndim = 5 ∧ crop.length = 2 then slices :: crop else crop
 
+/-! ### `PadCoilDimensionModule.forward` -/
+
+/-- the branch taken by `PadCoilDimensionModule.forward` and the number of zero coils allocated, as coded:
+```
+if not self.num_coils: return sample                    -- (0, 0)   None and 0 are both falsy
+if self.key not in sample: return sample                -- (0, 0)
+if curr_num_coils > self.num_coils: raise ValueError    -- (1, 0)
+if curr_num_coils == self.num_coils: return sample      -- (0, 0)
+padding_data_shape[self.coil_dim] = max(self.num_coils - num_coils, 0)   -- (2, that)
+```
+`num` = `pad_coils` (`None` is passed as `0`), `cur` = `data.shape[coil_dim]`. -/
+def padCoilDecision (num cur : Int) (hasKey : Bool) : Int × Int :=
+  if num = 0 then (0, 0) else
+  if hasKey = false then (0, 0) else
+  if cur > num then (1, 0) else
+  if cur = num then (0, 0) else
+  (2, max (num - cur) 0)
+
+/-- the operands of `torch.cat([...], dim=self.coil_dim)` in source order: the zeros come FIRST -/
+def padCoilCatModel : List String := ["zeros", "data"]
+
+/-- one fibre along the coil axis: `none` = `ValueError` (already more coils than requested) -/
+def padCoils1 {α} (zero : α) (num : Int) (xs : List α) : Option (List α) :=
+  let d := padCoilDecision num xs.length true
+  if d.1 = 1 then none else
+  if d.1 = 2 then some (fPad zero d.2.toNat 0 xs) else some xs
+
+/-- one call on the sample dictionary: a missing key is NOT an error here (`return sample`), the other key is kept -/
+def padCoilCall {α} (key : KKey) (f : α → Option α) (s : KSample α) : Option (KSample α) :=
+  match s.get key with
+  | none => some s
+  | some x => (f x).map (s.set key)
+
+/-- the module as a state machine without state (input: sample, output: `none` = raises) -/
+def padCoilModule {α} (key : KKey) (f : α → Option α) : Module Unit (KSample α) (Option (KSample α)) where
+  init := ()
+  step := fun _ s => ((), padCoilCall key f s)
+
 /-! ### predicates on the translated structural tables -/
 
 /-- rows `(class, function, what)`: writes to instance / class / module state outside `__init__`.  None allowed. -/
